@@ -298,9 +298,10 @@ def applyNTombs (d : Defects) (rights : Rights) (dst : Replica) (ts : List NTomb
     With #18 repaired (`ingestIgnoresTombstones := false`) an announced id that carries a deletion record is not
     requested; the deletion log is consulted the way a synchronised deletion deletes (`syncDeletionRoomScoped`):
     `WHERE room_id = ? AND id IN (..)` — the records of the synchronised room, which is the room of the announced
-    row — or, in the intended behaviour, the records of that id in any room. -/
+    row — or, in the intended behaviour, the records of that id in any room. (An id without any record passes at once;
+    the first conjunct keeps the gate in the shape `Lemmas/LwwEq.lean` states it in.) -/
 def wanted (d : Defects) (dst : Replica) (n : Node) : Option (Option Node) :=
-  if !d.ingestIgnoresTombstones &&
+  if !d.ingestIgnoresTombstones && dst.ntombs.any (fun t => t.id = n.id) &&
       dst.ntombs.any (fun t => t.id = n.id && (!d.syncDeletionRoomScoped || t.room = n.room)) then none
   else
     match dst.findId n.id with
